@@ -85,7 +85,7 @@ func crashLine(stderr []byte) string {
 	return lastLine(stderr)
 }
 
-const maxJobTimeouts = 4
+const maxJobTimeouts = 3
 
 // runJob runs the cases of one job, restarting the host as often as needed.
 func (r *runner) runJob(j job) {
